@@ -56,28 +56,37 @@ MIN_RADIUS = F(1, 10 ** 6)        # the statement's radii: 0, and 1e-6 .. 180 de
 ALL_DEPTHS = list(range(1, 14))
 FLAVOURS = ["matcher", "oneshot"]
 
-def _job(name, scope, n2, n1, ncalls, perpoint, kmode, variants, num=None, ow=0):
-    return dict(name=name, consts=dict(Scope=scope, MaxN2=n2, MaxN1=n1, MaxCalls=ncalls, PerPoint=perpoint, MaxOw=ow),
+def _job(name, scope, n2, n1, ncalls, perpoint, kmode, variants, num=None, ow=0, scale=()):
+    return dict(name=name, consts=dict(Scope=scope, MaxN2=n2, MaxN1=n1, MaxCalls=ncalls, PerPoint=perpoint, MaxOw=ow,
+                                       ScaleN=set(scale)),
                 kmode=kmode, variants=variants, num=num)
+
+
+def _mech(scope, n2, n1, ncalls, perpoint, ow=0):
+    return dict(Scope=scope, MaxN2=n2, MaxN1=n1, MaxCalls=ncalls, PerPoint=perpoint, MaxOw=ow, ScaleN=set())
 
 
 TIERS = {
     "quick": dict(
-        mech=[dict(Scope="q", MaxN2=2, MaxN1=2, MaxCalls=1, PerPoint=False, MaxOw=0),
-              dict(Scope="h", MaxN2=2, MaxN1=1, MaxCalls=1, PerPoint=True, MaxOw=1)],
+        mech=[_mech("q", 2, 2, 1, False), _mech("h", 2, 1, 1, True, ow=1)],
         jobs=[_job("sweep", "q", 2, 2, 1, False, "sweep", 2), _job("micro", "m", 2, 1, 1, False, "sweep", 2),
               _job("hist", "h", 2, 1, 2, True, "each", 1), _job("overwrite", "h", 2, 1, 1, True, "each", 3, ow=1),
-              _job("sim", "s", 6, 4, 3, True, "each", 2, num=250, ow=1)],
-        depths=[1, 4, 8, 13], seeded=900, seeded_n=6, seeded_variants=2, off=150, off_n=40, trixel_budget=6e4),
+              _job("dense", "d", 2, 1, 1, False, "sweep", 2),
+              _job("sim", "s", 6, 4, 3, True, "each", 2, num=250, ow=1),
+              _job("scale", "s", 6, 4, 1, True, "each", 1, num=4, scale=(20000, 65537))],
+        depths=[1, 4, 8, 13], dense_depths=[6, 8, 10], seeded=900, seeded_n=6, seeded_variants=2, off=150, off_n=40,
+        trixel_budget=6e4, dense_budget=4e5, scale_budget=2e7),
     "thorough": dict(
-        mech=[dict(Scope="t", MaxN2=2, MaxN1=1, MaxCalls=1, PerPoint=False, MaxOw=0),
-              dict(Scope="q", MaxN2=2, MaxN1=2, MaxCalls=1, PerPoint=True, MaxOw=0),
-              dict(Scope="h", MaxN2=2, MaxN1=1, MaxCalls=2, PerPoint=True, MaxOw=1)],
+        mech=[_mech("t", 2, 1, 1, False), _mech("q", 2, 2, 1, True), _mech("h", 2, 1, 2, True, ow=1)],
         jobs=[_job("sweep", "t", 2, 1, 1, False, "sweep", 2), _job("sweep_perpoint", "q", 2, 2, 1, True, "sweep", 2),
               _job("micro", "m", 3, 1, 1, False, "sweep", 2), _job("hist", "h", 2, 1, 2, True, "each", 2),
               _job("hist3", "h", 1, 1, 3, True, "each", 1), _job("overwrite", "h", 2, 1, 2, True, "each", 1, ow=1),
-              _job("sim", "s", 6, 4, 4, True, "each", 2, num=10000, ow=1)],
-        depths=ALL_DEPTHS, seeded=20000, seeded_n=24, seeded_variants=2, off=4000, off_n=150, trixel_budget=2e5),
+              _job("dense", "d", 2, 2, 1, True, "sweep", 2),
+              _job("sim", "s", 6, 4, 4, True, "each", 2, num=10000, ow=1),
+              _job("scale", "s", 6, 4, 1, True, "each", 1, num=12,
+                   scale=(19999, 20000, 20001, 32768, 65535, 65536, 65537, 100003, 196608, 262145))],
+        depths=ALL_DEPTHS, dense_depths=[5, 6, 7, 8, 9, 10, 11], seeded=20000, seeded_n=24, seeded_variants=2, off=4000,
+        off_n=150, trixel_budget=2e5, dense_budget=2e6, scale_budget=1e8),
 }
 
 # octahedral symmetries of the rational sphere (exact: permute / negate coordinates)
@@ -152,7 +161,15 @@ def plan_variants(life, lid, seed, T, nvariants):
     for v in range(nvariants):
         en = eps_names[(lid + v * 3 + seed) % len(eps_names)]
         eps = hl.EPS[en] if en else None
-        depths = [d for d in T["depths"] if life_cost(life, eps, d) <= T["trixel_budget"]] or [1]
+        if life.get("scale"):
+            # a scale case: the first set is tiled up to life["scale"] points; cost grows with it
+            mult = life["scale"] / max(1, sum(len(c["p1"]) for c in life_calls(life)))
+            depths = [d for d in T["depths"] if life_cost(life, eps, d) * mult <= T["scale_budget"]] or [1]
+        elif len(life["p2"]) >= 256:
+            # dense matcher set: depths at which both the tree and the cover have hundreds of leaf triangles
+            depths = [d for d in T["dense_depths"] if life_cost(life, eps, d) <= T["dense_budget"]] or [T["dense_depths"][0]]
+        else:
+            depths = [d for d in T["depths"] if life_cost(life, eps, d) <= T["trixel_budget"]] or [1]
         var = {"eps": en, "depth": depths[(lid * 5 + v * 7 + seed) % len(depths)],
                # the caller overwriting its arrays only concerns an object that outlives the call
                "flavour": "matcher" if ow else FLAVOURS[(lid + v + seed) % 2],
@@ -420,8 +437,72 @@ def exec_variant(arg):
     obs, frame_ok, notes = run_life(life, var)
     calls = life_calls(life)
     rec_calls = [dict(c, **{k: o[k] for k in OBS_KEYS}) for c, o in zip(calls, obs)]
-    return {"lid": lid, "vi": vi, "var": var, "calls": rec_calls, "frame_ok": frame_ok, "notes": notes,
-            "extra": [{"dev": o["dev"], "msg": o.get("msg")} for o in obs]}
+    out = {"lid": lid, "vi": vi, "var": var, "calls": rec_calls, "frame_ok": frame_ok, "notes": notes,
+           "extra": [{"dev": o["dev"], "msg": o.get("msg")} for o in obs]}
+    if life.get("scale"):
+        out["scale"] = run_scale(life, var)
+    return out
+
+
+def run_scale(life, var):
+    """the scale law (HtmMatch.tla ConcatLaw): the call of the life, made with its first set tiled up to
+    life["scale"] points, must return the concatenation (first indices shifted) of what the SAME implementation
+    returns for the small first set - which the exact oracle judges as an ordinary life.  A relation between two
+    outputs of the code; rows may only differ by swapping exact separation ties.  -> None or a description"""
+    import esutil.htm as H
+    kind, N = life["kind"], int(life["scale"])
+    c0 = [c for c in life["calls"] if is_call(c)][0]
+    ra2, dec2 = concretise(kind, life["p2"], var, 2)
+    ra1, dec1 = concretise(kind, c0["p1"], var, 1)
+    rr = concrete_radius(kind, c0["rad"], var)
+    n1, n2 = len(ra1), len(ra2)
+    reps = -(-N // n1)
+    big = [np.tile(np.array(x, dtype="f8"), reps)[:N] for x in (ra1, dec1)]
+    brad = rr[0] if len(rr) == 1 else np.tile(np.array(rr, dtype="f8"), reps)[:N]
+    srad = rr[0] if len(rr) == 1 else np.array(rr, dtype="f8")
+    a2 = (np.array(ra2, dtype="f8"), np.array(dec2, dtype="f8"))
+    use_file = var["pfile"] >= 0.3 and (N // 7) % 2 == 0
+    try:
+        obj = H.Matcher(var["depth"], a2[0], a2[1]) if var["flavour"] == "matcher" else None
+        for k in (c0["ks"] if "ks" in c0 else [c0["k"]]):
+            k = int(k)
+            small = raw_match(var["flavour"], var["depth"], obj, (np.array(ra1), np.array(dec1)), a2, srad, k, None)
+            tm1, tm2, td = (np.asarray(x) for x in small)
+            if use_file:
+                path = _tmpfile("scale")
+                cnt = raw_match(var["flavour"], var["depth"], obj, big, a2, brad, k, path)
+                data = H.read_pairs(path)
+                os.unlink(path)
+                m1, m2, d = np.asarray(data["i1"]), np.asarray(data["i2"]), np.asarray(data["d12"])
+                if int(cnt) != m1.size:
+                    return {"relation": "file_count", "k": k, "via": "file"}
+            else:
+                m1, m2, d = (np.asarray(x) for x in raw_match(var["flavour"], var["depth"], obj, big, a2, brad, k, None))
+            full, rem = divmod(N, n1)
+            parts1 = [tm1 + r * n1 for r in range(full)]
+            sel = tm1 < rem
+            e1 = np.concatenate(parts1 + [tm1[sel] + full * n1]) if tm1.size else np.zeros(0, dtype="i8")
+            e2 = np.concatenate([tm2] * full + [tm2[sel]]) if tm1.size else np.zeros(0, dtype="i8")
+            ed = np.concatenate([td] * full + [td[sel]]) if tm1.size else np.zeros(0)
+            via = "file" if use_file else "mem"
+            if m1.size != e1.size or not np.array_equal(m1, e1):
+                return {"relation": "groups_differ_from_parts", "k": k, "via": via, "rows": [int(m1.size), int(e1.size)]}
+            if m1.size and float(np.max(np.abs(d - ed))) > 1e-9:
+                t = int(np.argmax(np.abs(d - ed)))
+                return {"relation": "group_rows_not_in_the_order_of_the_parts", "k": k, "via": via, "row": t,
+                        "first_index": int(m1[t])}
+            bad = np.nonzero(m2 != e2)[0]
+            if bad.size:
+                pair_d = {(int(i), int(j)): float(x) for i, j, x in zip(tm1, tm2, td)}
+                for t in bad[:2000].tolist():
+                    x = pair_d.get((int(m1[t]) % n1, int(m2[t])))
+                    if x is None or abs(x - float(d[t])) > 1e-9:          # not a swap among exact ties
+                        return {"relation": "pairs_differ_from_parts", "k": k, "via": via, "row": t, "first_index": int(m1[t])}
+            if m1.size and np.unique(m1 * n2 + m2).size != m1.size:
+                return {"relation": "pair_repeated", "k": k, "via": via}
+    except Exception as e:  # noqa
+        return {"relation": "unexpected_error", "error": "%s: %s" % (type(e).__name__, str(e)[:200])}
+    return None
 
 
 # ---------------------------------------------------------------------------------
@@ -488,6 +569,13 @@ def judge(ctx, lives, results, what, cap=4):
         if not r["frame_ok"]:
             ctx.violation("match|argument_modified", "a coordinate / radius argument was modified by the call",
                           {"kind": "lattice", "life": lives[r["lid"]], "var": r["var"], "call": 0, "clause": "argument_modified"})
+        if r.get("scale"):
+            sc = r["scale"]
+            n = lives[r["lid"]]["scale"]
+            ctx.violation("match|scale_%s|first_set_%s" % (sc["relation"], ">=2^16" if n >= 65536 else "<2^16"),
+                          "a first set of %d points (the small one tiled) is not matched as the concatenation of its parts "
+                          "(ConcatLaw of HtmMatch.tla): %s; %s depth %d" % (n, sc, r["var"]["flavour"], r["var"]["depth"]),
+                          {"kind": "lattice", "life": lives[r["lid"]], "var": r["var"], "call": 0, "clause": "scale"})
         if not r["notes"]["results_stable"]:
             # two readings of the same returned arrays (exception (i) of BUILDING.md: relation between outputs)
             ctx.violation("match|result_changed_by_later_call", "arrays returned by an earlier call changed during the life",
@@ -530,8 +618,38 @@ def _ks(rng, n2):
     return rng.choice([-1, 0, 1, 2, 3, n2 + 1, rng.randrange(1, n2 + 2)])
 
 
+def dense_life(rng):
+    """a matcher set of several hundred lattice points (>= 256 occupied leaf triangles at moderate depth) searched
+    around a few points with radii of a few degrees: covers of hundreds of full and partial triangles"""
+    if rng.random() < 0.5:
+        pool = rs_all()
+        p2 = list(pool)
+        rng.shuffle(p2)
+        p2 = p2[:rng.choice([300, len(p2)])]
+        radii = [(224, 225), (99, 100), (199, 200), (24, 25), (12, 13)]
+        calls = []
+        for _ in range(rng.choice([1, 2])):
+            p1 = [rng.choice(pool) for _ in range(rng.choice([1, 2, 4]))]
+            rad = [list(rng.choice(radii)) for _ in p1] if rng.random() < 0.4 and len(p1) > 1 else [list(rng.choice(radii))]
+            calls.append({"op": "call", "p1": [list(q) for q in p1], "rad": rad, "k": rng.choice([0, 0, 1, 3, -1])})
+        return {"kind": "rs", "p2": [list(q) for q in p2], "ident": True, "calls": calls}
+    step = rng.choice([1, 1, 2])
+    p2 = [[a, rng.choice([0, 0, 1, -1, 2])] for a in range(0, 360, step)] + [[rng.randrange(360), rng.choice([-2, 3])] for _ in range(200)]
+    rng.shuffle(p2)
+    radii = [[1, 1], [2, -1], [3, 1], [5, 1], [8, -1], [12, 1]]
+    calls = []
+    for _ in range(rng.choice([1, 2])):
+        p1 = [[rng.randrange(360), rng.choice([0, 1, -1])] for _ in range(rng.choice([1, 2, 4]))]
+        rad = [list(rng.choice(radii)) for _ in p1] if rng.random() < 0.4 and len(p1) > 1 else [list(rng.choice(radii))]
+        calls.append({"op": "call", "p1": p1, "rad": rad, "k": rng.choice([0, 0, 1, 3, -1])})
+    haspole = any(p[0] in (90, 270) and p[1] == 0 for p in p2)
+    return {"kind": "gc", "p2": p2, "ident": (not haspole) or rng.random() < 0.5, "calls": calls}
+
+
 def seeded_life(rng, nmax):
     fam = rng.choice(["cluster", "cluster", "micro", "spread", "rs", "rs", "rs_cluster"])
+    if rng.random() < 0.04:
+        return dense_life(rng)
     n2 = rng.choice([1, 2, 3, nmax // 2 + 1, nmax])
     ncalls = rng.choice([1, 1, 2, 3, 4])
     if fam in ("rs", "rs_cluster"):
@@ -661,6 +779,8 @@ def off_case(arg):
     """returns None (no usable radius), {"ok": True, ...} or a dict describing the first broken relation"""
     seed, nmax, budget, depths_all = arg
     rs = np.random.RandomState(seed % (2 ** 32))
+    if seed % 8 == 1:
+        return off_dense_case(rs, budget)
     n2 = int(rs.choice([1, 2, 5, nmax // 3 + 1, nmax]))
     fam, size, ra2, dec2 = off_points(rs, n2)
     if rs.rand() < 0.35:
@@ -698,6 +818,32 @@ def off_case(arg):
     case = {"kind": "offlattice", "ra1": [x.hex() for x in ra1.tolist()], "dec1": [x.hex() for x in dec1.tolist()],
             "ra2": [x.hex() for x in ra2.tolist()], "dec2": [x.hex() for x in dec2.tolist()],
             "rad": [float(x).hex() for x in np.atleast_1d(radarg).tolist()], "depths": dsel, "k": k, "family": fam}
+    return off_relations(case)
+
+
+def off_dense_case(rs, budget):
+    """thousands of second-set points in a 10-degree region, radii of 0.5 .. 3 degrees, depths 6 .. 11: tree and cover
+    both hold hundreds of leaf triangles; the pair set must not depend on the depth"""
+    n2 = int(rs.choice([600, 2000, 5000]))
+    ra0, dec0 = rs.uniform(0, 360), float(np.degrees(np.arcsin(rs.uniform(-0.95, 0.95))))
+    dec2 = np.clip(dec0 + rs.uniform(-6, 6, n2), -90, 90)
+    ra2 = (ra0 + rs.uniform(-6, 6, n2) / max(math.cos(math.radians(dec0)), 0.05)) % 360
+    n1 = int(rs.choice([2, 5]))
+    idx = rs.randint(0, n2, n1)
+    ra1 = (ra2[idx] + rs.uniform(-0.3, 0.3, n1)) % 360
+    dec1 = np.clip(dec2[idx] + rs.uniform(-0.3, 0.3, n1), -90, 90)
+    rad = float(rs.choice([0.5, 1.0, 1.5, 3.0]))
+    sep = _sep_ld(ra1, dec1, ra2, dec2)
+    for _ in range(40):
+        if np.all(np.abs(sep - np.longdouble(rad)) > 1e-7):
+            break
+        rad *= 1 + 1e-4 * (1 + rs.rand())
+    else:
+        return None
+    depths = [d for d in (6, 8, 9, 10, 11) if n1 * hl.trixels_in_cap(rad, d) * 4 <= max(budget, 4e5) * 10] or [6, 8]
+    case = {"kind": "offlattice", "ra1": [x.hex() for x in ra1.tolist()], "dec1": [x.hex() for x in dec1.tolist()],
+            "ra2": [x.hex() for x in ra2.tolist()], "dec2": [x.hex() for x in dec2.tolist()],
+            "rad": [float(rad).hex()], "depths": depths[:4], "k": int(rs.choice([1, 3])), "family": "dense"}
     return off_relations(case)
 
 
@@ -827,6 +973,8 @@ def _export(ctx, kind, job):
         key = json.dumps(life, sort_keys=True)
         if key not in seen:
             seen.add(key)
+            if not life.get("scale"):
+                life.pop("scale", None)
             out.append(dict(life, eps_hint="smallest") if job["name"] == "micro" else life)
     return out
 
@@ -850,6 +998,9 @@ class _Stats:
         self.pairs = 0
         self.rejected = 0
         self.cover = {"depth": {}, "flavour": {}, "layout": {}, "via": {}, "eps": {}}
+        self.scale_cases = 0              # scale cases executed / those whose small call has a group of >= 2 pairs
+        self.scale_multi = 0
+        self.dense = 0                    # executions with >= 256 matcher points
         self.probe = {}                   # calls picked for the binding self-test (find_probe)
 
 
@@ -878,6 +1029,11 @@ def process(ctx, T, st, items, chunk=30000):
             for c in r["calls"]:
                 cv["via"][c["via"]] = cv["via"].get(c["via"], 0) + 1
                 st.pairs += len(c["m1"])
+            if "scale" in r:
+                st.scale_cases += 1
+                st.scale_multi += any(len(c["m1"]) > len(set(c["m1"])) for c in r["calls"])
+                ctx.evaluations += 1
+            st.dense += len(lives[r["lid"]]["p2"]) >= 256
         ctx.evaluations += sum(len(r["calls"]) for r in results) - len(results)
         st.executions += len(results)
         if len(ctx.samples) < 5 and results:
@@ -896,14 +1052,14 @@ def _run(ctx, T, only):
         c = dict(consts, Kind=kind, Deviation="none", DoExport=False, KMode="each")
         return ctx.tlc("HtmMatchMC.tla", what="mechanism refines property, state frozen [%s %s%s]" %
                        (kind, consts["Scope"], " per-point radii" if consts["PerPoint"] else ""),
-                       cfg_text=cfg(constants=c, invariants=["MechRefines", "RefAccepted"], properties=["StateFrozen"]),
+                       cfg_text=cfg(constants=c, invariants=["MechRefines", "RefAccepted", "AcceptLawHolds"], properties=["StateFrozen"]),
                        workers=8, require=["AddP2", "New", "AddP1", "SelfCall", "ChooseRad", "ChooseK", "MechStep", "MechDone"] +
                        (["Overwrite"] if consts["MaxOw"] else []),
                        timeout=3000)
 
     def selftest(dev):
         c = dict(Scope="q", MaxN2=2, MaxN1=2, MaxCalls=1, PerPoint=False, Kind="rs" if dev == "truncate_unsorted" else "gc",
-                 Deviation=dev, DoExport=False, KMode="each", MaxOw=0)
+                 Deviation=dev, DoExport=False, KMode="each", MaxOw=0, ScaleN=set())
         r = ctx.tlc("HtmMatchMC.tla", what="self-test: deviation %s violates MechRefines" % dev,
                     cfg_text=cfg(constants=c, invariants=["MechRefines"]), workers=1, allow_violation=True, coverage=False)
         if "MechRefines" not in r.violated:
@@ -926,7 +1082,7 @@ def _conformance(ctx, T, only):
     # 2. export the lives of the machine (spec -> code), execute them, judge what came back (code -> spec)
     st = _Stats()
     jobs = [(job, kind) for job in T["jobs"] if (not only or job["name"] in only)
-            for kind in (("gc",) if job["consts"]["Scope"] == "m" else ("gc", "rs"))]
+            for kind in (("gc",) if job["consts"]["Scope"] in ("m", "d") else ("gc", "rs"))]
     with ThreadPoolExecutor(4) as ex:
         futs = [ex.submit(_export, ctx, kind, job) for job, kind in jobs]
         exported = [f.result() for f in futs]
@@ -947,6 +1103,8 @@ def _conformance(ctx, T, only):
             for nm in names:
                 if not cover[key].get(nm):
                     raise MachineryError("%s %s never exercised" % (key, nm))
+    if not only and (st.scale_multi < 1 or st.dense < 10):
+        raise MachineryError("vacuous: %d scale cases with a multi-pair group, %d dense executions" % (st.scale_multi, st.dense))
     if st.pairs < st.executions:
         raise MachineryError("vacuous: only %d pairs returned over %d executions" % (st.pairs, st.executions))
     # 4. off the lattices: relations between implementation outputs
@@ -991,7 +1149,8 @@ def _conformance(ctx, T, only):
     ctx.exhaustive = True
     ctx.note(bounds={"mech": T["mech"], "jobs": T["jobs"]}, exported_lives=nexported, lives_by_origin=st.by_origin,
              executions=st.executions, match_calls=st.calls, pairs_returned=st.pairs,
-             rejected_executions=st.rejected, coverage_of_concretisations=cover, offlattice_cases=noff, offlattice=offstats,
+             rejected_executions=st.rejected, coverage_of_concretisations=cover, scale_cases=st.scale_cases,
+             scale_cases_with_multi_pair_groups=st.scale_multi, dense_executions=st.dense, offlattice_cases=noff, offlattice=offstats,
              offlattice_broken=len(offbad), separation_tolerance_deg="1e-9")
     ctx.trusted_base += ["float(Fraction) correctly rounded; one longdouble atan2/asin/acos per rational-sphere input (vh.htmlat)",
                          "projection of reported separations onto lattice values with Fraction / longdouble arithmetic (vh.htmlat)"]
